@@ -57,8 +57,9 @@ CLAIMS["C01"] = dict(
 CLAIMS["C02"] = dict(
     text="VM-side kernels only: (a) every generic arithmetic/comparison/shift/bit opcode handler, run for one step in the reduced dispatch shell on symbolic "
          "operands, equals a definitional single-operation evaluator written from the language spec; (b) Function::add_constant returns an index holding "
-         "exactly the added value's bits for any two 64-bit Values; (c) frame-state coherence across every call/return opcode is decided under C04 "
-         "(cached locals == new top frame).",
+         "exactly the added value's bits for any two 64-bit Values; (c) CloseUpvals closes exactly the open upvalues at or above base+a and keeps the value, "
+         "GetUpval/SetUpval go through the live register or the box, Return lands the value at caller_base+dest and resumes the caller, ForLoopI/ForLoopIInc/"
+         "WhileLoopLt perform one iteration of the documented range semantics; frame-state coherence across every call opcode is decided under C04.",
     design_ref="DESIGN.md §2 C02",
     note=SHELL_NOTE + " Out: everything source-level (scoping, closures-by-reference across frames, for-each lowering), register allocation, float * / %.",
     technique="Kani/CBMC bounded model checking of the real opcode handlers against a definitional evaluator (differential single steps)")
@@ -94,7 +95,9 @@ CLAIMS["C10"] = dict(
     technique="Kani/CBMC bounded model checking of the VM's allocation entry points from a symbolic near-limit heap state")
 CLAIMS["C13"] = dict(
     text="VM mechanism only: EnterNoGc adds one at every depth (no saturation), ExitNoGc subtracts one or reports underflow at zero leaving depth 0, nothing else "
-         "changes; with the collection threshold crossed and depth 1, 2 or 64, maybe_collect frees nothing.",
+         "changes; maybe_collect starts a collection iff no region is open and the threshold is crossed (VM::collect replaced by a flag-setting stub); leaving an "
+         "inner region never starts one; allocating opcodes (string concat, Alloc, ArrayNew, ArrayLit, StringForLoop) executed at depth 1..64 with the threshold "
+         "crossed never start one; with the real collect and depth 1, 2 or 64, maybe_collect frees nothing.",
     design_ref="DESIGN.md §2 C13",
     note=SHELL_NOTE + " Out: that the compiler emits a matching exit on every return path, inlining, and restoration after a runtime error.",
     technique="Kani/CBMC bounded model checking of the no-gc depth handlers and maybe_collect")
